@@ -324,6 +324,10 @@ func (p *Program) litStores(e ast.Expr, isT func(types.Type) bool, classOf func(
 
 // printEvents extracts the print-side events of T.String().
 func (p *Program) printEvents(str *types.Func) []slotEvent {
+	return p.printEventsDepth(str, 0)
+}
+
+func (p *Program) printEventsDepth(str *types.Func, depth int) []slotEvent {
 	fd := p.FuncDecls[str]
 	if fd == nil || fd.Body == nil || fd.Recv == nil || len(fd.Recv.List) == 0 || len(fd.Recv.List[0].Names) == 0 {
 		return nil
@@ -404,6 +408,19 @@ func (p *Program) printEvents(str *types.Func) []slotEvent {
 			name := ""
 			if callee != nil {
 				name = callee.Name()
+			}
+			// a helper method on the same receiver that builds part of the text
+			if callee != nil && depth < 2 && callee.Pkg() == p.Types && callee != str && name != "String" {
+				if sel, ok := x.Fun.(*ast.SelectorExpr); ok {
+					if id := identOf(sel.X); id != nil && p.Info.ObjectOf(id) == recv && p.FuncDecls[callee] != nil {
+						if sig, ok := callee.Type().(*types.Signature); ok && sig.Results().Len() == 1 {
+							if b, ok := sig.Results().At(0).Type().Underlying().(*types.Basic); ok && b.Info()&types.IsString != 0 {
+								ev = append(ev, p.printEventsDepth(callee, depth+1)...)
+								return
+							}
+						}
+					}
+				}
 			}
 			if id := identOf(x.Fun); id != nil && id.Name == "append" && len(x.Args) >= 1 {
 				if _, isBuiltin := p.Info.Uses[id].(*types.Builtin); isBuiltin {
@@ -529,7 +546,11 @@ func (p *Program) printEvents(str *types.Func) []slotEvent {
 			ast.Inspect(x.Cond, func(m ast.Node) bool {
 				if e, ok := m.(ast.Expr); ok {
 					if f := fieldOf(e); f != "" {
-						if _, isSel := ast.Unparen(e).(*ast.SelectorExpr); isSel {
+						_, isSel := ast.Unparen(e).(*ast.SelectorExpr)
+						if id, isId := ast.Unparen(e).(*ast.Ident); isId {
+							_, isSel = alias[p.Info.ObjectOf(id)]
+						}
+						if isSel {
 							ev = append(ev, slotEvent{kind: "READ", field: f, pos: e.Pos(), cond: true})
 							return false
 						}
@@ -567,6 +588,23 @@ func (p *Program) printEvents(str *types.Func) []slotEvent {
 				}
 			}
 		case *ast.AssignStmt:
+			// x := recv.F (or *recv.F): a local name for the field, not output
+			if x.Tok == token.DEFINE && len(x.Lhs) == 1 && len(x.Rhs) == 1 {
+				if id, ok := x.Lhs[0].(*ast.Ident); ok {
+					rhs := ast.Unparen(x.Rhs[0])
+					if st, ok := rhs.(*ast.StarExpr); ok {
+						rhs = ast.Unparen(st.X)
+					}
+					if _, isSel := rhs.(*ast.SelectorExpr); isSel {
+						if f := fieldOf(rhs); f != "" {
+							if o := p.Info.ObjectOf(id); o != nil {
+								alias[o] = f
+								return
+							}
+						}
+					}
+				}
+			}
 			for _, r := range x.Rhs {
 				if call, ok := r.(*ast.CallExpr); ok && isWrite(call) {
 					args := call.Args
